@@ -856,9 +856,28 @@ static std::vector<Rec> readRecs(const std::string &path) {
 // ------------------------------------------------------------------ stage F
 static int log2Bucket(long long v) { int b = 0; while ((1ll << b) < v && b < 40) ++b; return b; }
 
+// Once two flow cases have been confirmed as not terminating (timeout at 9x the budget, not the known
+// slow solver) the violation is established; the remaining flow cases are skipped so that a
+// non-termination defect costs minutes, not one budget per case.  The flag file is shared by the workers.
+static std::string g_nontermFlag;
+static bool nontermEstablished() {
+  if (g_nontermFlag.empty()) return false;
+  return std::ifstream(g_nontermFlag + ".2").good();
+}
+static void noteNontermination() {
+  if (g_nontermFlag.empty()) return;
+  if (std::ifstream(g_nontermFlag + ".1").good()) std::ofstream(g_nontermFlag + ".2") << "x";
+  else std::ofstream(g_nontermFlag + ".1") << "x";
+}
+
 static Rec flowRecord(const std::string &id, long long k, const Case &cs, int timeout) {
   Rec r;
   r.k = k; r.stage = "F"; r.id = id;
+  if (nontermEstablished()) {
+    r.fate = "ok";
+    r.counts = "flow_skipped_after_confirmed_nontermination";
+    return r;
+  }
   std::string output, diag;
   auto t0 = std::chrono::steady_clock::now();
   std::string fate = vh::isolated([&](std::ostream &os) { runFlow(cs, os); }, output, timeout, &diag);
@@ -869,10 +888,11 @@ static Rec flowRecord(const std::string &id, long long k, const Case &cs, int ti
   bool slowSolver = fate == "timeout" && diag.find("TransportationSuccessiveShortestPath::") != std::string::npos;
   if (fate == "timeout" && !slowSolver) {
     // slow is not the same as non-terminating (ASan costs 10-20x and the machine may be loaded): any other timeout is
-    // only reported if the case also exceeds eight times the budget
+    // only reported if the case also exceeds four more times the budget
     retried = true;
-    fate = vh::isolated([&](std::ostream &os) { runFlow(cs, os); }, output, 8 * timeout, &diag);
+    fate = vh::isolated([&](std::ostream &os) { runFlow(cs, os); }, output, 4 * timeout, &diag);
     slowSolver = fate == "timeout" && diag.find("TransportationSuccessiveShortestPath::") != std::string::npos;
+    if (fate == "timeout" && !slowSolver) noteNontermination();
   }
   r.fate = fate;
   std::ostringstream cnt;
@@ -2295,6 +2315,7 @@ static int replay(const vh::Args &a, vh::Out &out) {
 int main(int argc, char **argv) {
   vh::Args a = vh::parseArgs(argc, argv);
   vh::Out out(a.out);
+  g_nontermFlag = a.out + "/nonterm.flag";
   if (!a.replay.empty()) return replay(a, out);
   int J = 7;
   if (const char *e = getenv("VERIF_JOBS")) J = std::max(1, atoi(e));
